@@ -73,3 +73,8 @@ Definition seg {A} (p : list A) (lo hi : Z) : list A := py_slice p (Some lo) (So
 
 (** read a segment with the view's stride and orientation: [seg[::step]] *)
 Definition strided {A} (l : list A) (step : Z) : list A := py_slice l None None step.
+
+(** the operations for which an implementation variant is claimed to follow
+    the plain-string interpretation *)
+Definition op_ok_for (i : impl) (o : op) : Prop :=
+  match i with OldStyle => op_ok_old o | NewStyle => op_ok_new o | Fixed => op_ok o end.
